@@ -42,6 +42,7 @@ type exMon struct {
 	Readers bool `json:"readers"` // C02: re-dump every open reader after every event
 	Writes  bool `json:"writes"`  // C06: check every write against the visible page sets
 	Reclaim bool `json:"reclaim"` // C10: allocator invariants at every quiescent point
+	Account bool `json:"account"` // C08: page accounting (D, Tx.Check, Stats) after every writer event
 }
 
 type exArgs struct {
@@ -341,7 +342,7 @@ func (ex *explorer) run(cs *exCase) (viol []exec.Violation) {
 	ex.tr.CursorLimit = 1_000_000
 	ex.tr.Install()
 	defer iotrace.Uninstall()
-	ex.r = exec.NewRunner(ex.path, exec.Monitors{API: true, Dumps: true})
+	ex.r = exec.NewRunner(ex.path, exec.Monitors{API: true, Dumps: true, TxCheck: ex.mon.Account, Accounting: ex.mon.Account, FreeExact: ex.mon.Account})
 	ex.r.Tracer = ex.tr
 	defer func() {
 		if x := recover(); x != nil {
